@@ -74,7 +74,7 @@ A, B = "0102", "0304"
 OPS = ["r arm " + A, "r arm " + B, "r reply 6d31", "r reply none", "r defer", "r dreply 0 6d32", "r dreply 1 6d33",
        "r drop 0", "r drop 1", "r drop ctx", "r creply 3 6869"]
 # less frequent entry points, combined exhaustively only up to length 3
-OPS2 = OPS + ["r arm zero:2", "r arm -", "r probe", "r reref", "r creply -4 -", "r creply 200 61", "r defer nomem", "r lreply 2 6869", "r lreply -3 -", "r lreply 0 61", "r lreply -129 61"]
+OPS2 = OPS + ["r arm self:0506", "r arm self:07", "r arm zero:2", "r arm -", "r probe", "r reref", "r creply -4 -", "r creply 200 61", "r defer nomem", "r lreply 2 6869", "r lreply -3 -", "r lreply 0 61", "r lreply -129 61"]
 SCHEDS = ["r send", "r send fail", "r send ok fail", "r send fail fail fail fail fail fail fail fail"]
 CLOSE = ["r drop 0", "r drop 1", "r drop ctx"]
 
@@ -386,6 +386,12 @@ class _XX:
                         lines += ["xr %s %s41" % (via, mk(w, first)), "xr send 7a", "xr %s %s42" % (via, mk(w, n + 1)), "xr send 7b",
                                   "xr %s %s43" % (via, mk(w, (first % n) + 1)), "xr send 7c", "xr %s %s44" % (via, mk(w, first)), "xr close"]
                         out.append(("xfu:%d/%d/%s/%d" % (w, n, via, first), lines))
+        # the C++ wrapper reply_data::set (mpt++/event.cpp) in front of mpt_reply_set: every sequence up to length 4 over
+        # arm A / arm B / arm with length 0 / reply / reply none / drop ctx
+        XOPS = ["xc arm 0102", "xc arm 0304", "xc arm -", "xc arm 010203", "xc reply 4142", "xc reply none", "xc drop ctx"]
+        for ln in (1, 2, 3, 4):
+            for seq in itertools.product(XOPS, repeat=ln):
+                out.append(("xc:" + "".join(str(XOPS.index(o)) for o in seq), ["xc ctx 2"] + list(seq) + ["xc drop ctx", "xc arm 01", "xc ctx 1", "xc arm 05", "xc ctx x"]))
         out.append(("xr:idlen", ["xr open 0", "xr idlen 2", "xr await 3", "xr send 61", "xr answer 800141", "xr idlen 128", "xr idlen 129",
                                  "xr idlen 1", "xr await 4", "xr send 62", "xr answer 8242,8142", "xr idlen 0", "xr await 5", "xr close"]))
         out.append(("xr:misc", ["xr open 0", "xr await 1", "xr send 6162", "xr answer 6364", "xr sync 65", "xr close",
